@@ -252,6 +252,11 @@ class Translator:
                 continue
             elif isinstance(st, ast.Try):
                 self.block(st.body, env, ctx)
+            elif isinstance(st, ast.With) and all(
+                    isinstance(it.context_expr, ast.Call) and (self.resolve_dotted(it.context_expr.func, env) or "") in
+                    ("numpy.errstate", "warnings.catch_warnings", "contextlib.suppress", "contextlib.nullcontext") and it.optional_vars is None
+                    for it in st.items):
+                self.block(st.body, env, ctx)       # floating-point error state / warning filters do not change values
             else:
                 self.err(st, f"statement {type(st).__name__} outside the algebraic fragment")
 
